@@ -27,7 +27,7 @@ func init() {
 			ver := vers[rooms%len(vers)]
 			rooms++
 			r := safely(rooms, func() Result {
-				growRoom(rng, ver, 8+rng.Intn(14), tw, a.n)
+				growRoom(rng, ver, rooms, 8+rng.Intn(14), tw, a.n)
 				return Result{OK: true}
 			})
 			if !r.OK {
@@ -41,6 +41,7 @@ func init() {
 
 type grownRoom struct {
 	ver    string
+	no     int            // number of the room in this run
 	events []roomEvent    // abstract, ID = index+1
 	pdus   []gmsl.PDU     // real
 	after  [][]int        // state after each event (ids)
@@ -99,8 +100,8 @@ func (g *grownRoom) resolve(tips []int) []int {
 		auth = nil
 		for _, xs := range cnt {
 			if len(xs) == 1 {
-				switch g.events[xs[0]-1].Type {
-				case "create", "pl", "jr", "member":
+				// members and the room's create / power levels / join rules (empty state key)
+				if e := g.events[xs[0]-1]; e.Type == "member" || ((e.Type == "create" || e.Type == "pl" || e.Type == "jr") && e.SKey == "") {
 					auth = append(auth, xs[0])
 				}
 			}
@@ -132,8 +133,10 @@ func (g *grownRoom) add(e roomEvent, ts int64, idTag int) bool {
 	var realID string
 	switch {
 	case isDomainless(g.ver) || !isFormatV1(g.ver):
-		realID = eventID43(fmt.Sprintf("e%04d", idTag))
+		// room versions 3+: an ID names one event only - unique over the rooms of the run
+		realID = eventID43(fmt.Sprintf("e%04dr%d", idTag, g.no))
 	default:
+		// room versions 1, 2: sender-chosen IDs, reused from room to room for different events
 		realID = fmt.Sprintf("$e%04d:hs1", idTag)
 	}
 	es := eventSpec{Ver: g.ver, ID: realID, RoomID: g.room, Sender: userIDs[e.Sender], Depth: e.Depth, TS: ts * 1000}
@@ -172,10 +175,10 @@ func (g *grownRoom) add(e roomEvent, ts int64, idTag int) bool {
 		es.Type, es.StateKey = "m.room.member", strp(userIDs[e.SKey])
 		es.Content = map[string]interface{}{"membership": e.Membership}
 	case "pl":
-		es.Type, es.StateKey = "m.room.power_levels", strp("")
+		es.Type, es.StateKey = "m.room.power_levels", strp(stateKeyOf(e))
 		es.Content = e.plContent()
 	case "jr":
-		es.Type, es.StateKey = "m.room.join_rules", strp("")
+		es.Type, es.StateKey = "m.room.join_rules", strp(stateKeyOf(e))
 		es.Content = map[string]interface{}{"join_rule": e.JR}
 	default:
 		es.Type, es.StateKey = "m.room.topic", strp("")
@@ -215,8 +218,8 @@ func noUsers() map[string]int {
 	return map[string]int{"creator": -1, "alice": -1, "bob": -1, "carol": -1}
 }
 
-func growRoom(rng *rand.Rand, ver string, free int, tw *traceWriter, limit int) {
-	g := &grownRoom{ver: ver, idOf: map[string]int{}, room: "!room:hs1"}
+func growRoom(rng *rand.Rand, ver string, roomNo int, free int, tw *traceWriter, limit int) {
+	g := &grownRoom{ver: ver, no: roomNo, idOf: map[string]int{}, room: "!room:hs1"}
 	tags := rng.Perm(9000) // random lexicographic order of the event IDs
 	tag := func() int { t := tags[0]; tags = tags[1:]; return t }
 	initPL := noUsers()
@@ -289,7 +292,7 @@ func growRoom(rng *rand.Rand, ver string, free int, tw *traceWriter, limit int) 
 		e.Depth = depth + 1
 		needJR := false
 		target := ""
-		switch rng.Intn(9) {
+		switch rng.Intn(10) {
 		case 0:
 			e.Type, e.SKey, e.Membership = "member", u, "join"
 			needJR = true
@@ -318,8 +321,13 @@ func growRoom(rng *rand.Rand, ver string, free int, tw *traceWriter, limit int) 
 			}
 			e.PLU = cur
 			e.PUD = intp(pud)
+			if rng.Intn(5) == 0 {
+				e.SKey = "x" // a power-levels event under a non-empty state key: an ordinary entry of the state map
+			}
 		case 7:
 			e.Type, e.JR = "jr", []string{"public", "invite"}[rng.Intn(2)]
+		case 8:
+			e.Type, e.JR, e.SKey = "jr", []string{"public", "invite"}[rng.Intn(2)], "x"
 		default:
 			e.Type = "topic"
 		}
